@@ -452,7 +452,7 @@ pub fn run(tier: Tier, seed: u64) -> i32 {
   }
   rep.floor("interaction:static+dynamic same specifier", 20);
   rep.floor("interaction:code+type same specifier", 20);
-  let n = tier.pick(32000, 1600000);
+  let n = tier.pick(32000, 6400000);
   let acc = par_run(n, |i, acc| one(i, seed, acc));
   rep.finish(acc)
 }
